@@ -38,7 +38,8 @@ async fn verif_model_pool_tracker() {
                 let p = peers[rng.below(6) as usize];
                 let lo = sub_head.saturating_sub(12).max(11);
                 let h = (lo + rng.below(20)).min(30);
-                let x = if rng.below(5) < 3 { hash_of(h) } else { wrong[rng.below(2) as usize] };
+                // a wrong hash is a foreign one or the (right) data hash of a neighbouring height
+                let x = match rng.below(6) { 0 | 1 | 2 => hash_of(h), 3 => wrong[rng.below(2) as usize], _ => hash_of(if h > 11 { h - 1 } else { h + 1 }) };
                 tracker.add_peer_for_hash(p, x, h);
                 if h > sub_head.saturating_sub(10) {
                     if !pools.contains_key(&h) { tasks.insert(h); }
